@@ -573,6 +573,9 @@ class AdaptTranslator:
                     break
                 if r == "skip":
                     continue
+            if st[0] == "expr":
+                raise TrError(f"{ctx['where']}: line {st[1]}: a statement-position `{st[2][0]}` expression is not supported "
+                              f"(an early `return`, a loop, a dropped value: every path must end in the parent call)")
             if st[0] != "let":
                 raise TrError(f"{ctx['where']}: line {st[1]}: statement `{st[0]}` is not supported")
             _, line, pat, ty, e, mut = st
